@@ -335,7 +335,7 @@ func (ss *SpecSet) parseFile(path string, dep bool) error {
 					}
 					ann.Ghost = strings.TrimSpace(body[:eq])
 					body = strings.TrimSpace(body[eq+1:])
-				} else if f[1] != "assert" {
+				} else if f[1] != "assert" && f[1] != "ensure" {
 					return fmt.Errorf("%s:%d: at <site> assert|set ...", path, ln+1)
 				}
 				c, err := mkClause("site-"+f[1], body)
@@ -350,10 +350,18 @@ func (ss *SpecSet) parseFile(path string, dep bool) error {
 				cur.Sites[site] = append(cur.Sites[site], ann)
 			case "results":
 				cur.Results = splitLocs(rest)
-			case "requires", "ensures", "cover":
+			case "requires", "ensures", "cover", "defines":
 				c, err := mkClause(word, rest)
 				if err != nil {
 					return err
+				}
+				if word == "defines" {
+					// definitional constraint on ghost state that is used nowhere else: assumed when the body
+					// is verified, not demanded from callers (a suitable ghost value always exists)
+					c.Kind = "requires"
+					c.Assume = true
+					word = "requires"
+					cur.Assumed = append(cur.Assumed, "ghost definition in "+cur.Key+": "+rest)
 				}
 				switch word {
 				case "requires":
